@@ -4,7 +4,7 @@
    wf_sigb is evaluated: in-domain cases must be well formed (so that the
    injectivity theorems apply to them), the collision families must not be.       *)
 From Coq Require Import ZArith NArith List Bool.
-From XV Require Import core.Value core.Sha256 model.Hash model.Ser.
+From XV Require Import core.Value core.Sha256 model.Hash model.Ser model.Deep proofs.Deep_lemmas.
 Import ListNotations.
 
 Record scase := {
@@ -29,6 +29,27 @@ Definition check_scase (c : scase) : bool :=
   match sig_of c with
   | Ok (s, _) => Bool.eqb (wf_sigb false s) (s_expect_wf c)
                  && bytes_eqb (sha256 (enc_sig s))
+                      (match hnode sha256 (s_classes c) (s_heap c) (fun _ => None) (hash_fuel (s_heap c)) [] (s_node c)
+                       with Ok (d, _) => d | Err _ => [] end)
+  | Err _ => negb (s_expect_wf c)
+  end.
+
+(* ---- the deep signature (nested configurations unfolded): the hypotheses of C03_deep_injective,
+   evaluated on the generated configuration: well formed at every depth, and its identifier is the
+   implementation-validated identifier of the node                                               *)
+Definition cty_of (c : scase) (tid k : bytes) : sty :=
+  match find (fun p => bytes_eqb (c_tid (fst p)) tid) (combine (s_classes c) (s_types c)) with
+  | Some p => ty_of (snd p) k
+  | None => TObj
+  end.
+
+Definition deep_of (c : scase) : res (dval * nat) :=
+  dnode (s_classes c) (s_heap c) (cty_of c) (hash_fuel (s_heap c)) [] (s_node c).
+
+Definition check_deep (c : scase) : bool :=
+  match deep_of c with
+  | Ok (t, _) => Bool.eqb (wfdb sha256 (cty_of c) false t) (s_expect_wf c)
+                 && bytes_eqb (node_id sha256 t)
                       (match hnode sha256 (s_classes c) (s_heap c) (fun _ => None) (hash_fuel (s_heap c)) [] (s_node c)
                        with Ok (d, _) => d | Err _ => [] end)
   | Err _ => negb (s_expect_wf c)
